@@ -194,12 +194,19 @@ func c03Err(err error) string {
 // ---- running one case ---------------------------------------------------------------------------------
 
 // c03Run executes one case: req and supplied are vals (see the generators for the layout per family).
-func c03Run(family, cfg, stream string, req, sup *val) caseLine {
-	env := c03Get(cfg)
-	defer c03Put(env)
-	sc := &respScript{}
-	var delivered *val
-	var run func() string
+// c03Step is one command of a case: the script its backend call will hand to the writers, how to send
+// the command (issue: returns as soon as the command is on the wire) and how to wait for what it delivers.
+type c03Step struct {
+	family    string
+	sc        *respScript
+	issue     func()
+	collect   func() string
+	delivered *val
+}
+
+func c03Prepare(env *c03Env, family string, req, sup *val) *c03Step {
+	st := &c03Step{family: family, sc: &respScript{}}
+	sc := st.sc
 	cl := env.cl
 
 	switch family {
@@ -231,18 +238,20 @@ func c03Run(family, cfg, stream string, req, sup *val) caseLine {
 		if len(uids) == 0 {
 			uids.AddNum(1)
 		}
-		run = func() string {
-			var cmd *imapclient.FetchCommand
+		var cmd *imapclient.FetchCommand
+		st.issue = func() {
 			if uidMode {
 				cmd = cl.Fetch(uids, opts)
 			} else {
 				cmd = cl.Fetch(seqs, opts)
 			}
-			delivered = vL()
+		}
+		st.collect = func() string {
+			st.delivered = vL()
 			if mode == "collect" {
 				bufs, err := cmd.Collect()
 				for _, b := range bufs {
-					delivered.add(c03BufferVal(b))
+					st.delivered.add(c03BufferVal(b))
 				}
 				return c03Err(err)
 			}
@@ -270,7 +279,7 @@ func c03Run(family, cfg, stream string, req, sup *val) caseLine {
 					}
 					items.add(vFetchItem(item, lit))
 				}
-				delivered.add(vL(vN(uint64(msg.SeqNum)), items))
+				st.delivered.add(vL(vN(uint64(msg.SeqNum)), items))
 			}
 			return c03Err(cmd.Close())
 		}
@@ -283,11 +292,13 @@ func c03Run(family, cfg, stream string, req, sup *val) caseLine {
 		for _, d := range sup.kids {
 			sc.list = append(sc.list, gListData(d))
 		}
-		run = func() string {
-			l, err := cl.List("", "*", opts).Collect()
-			delivered = vL()
+		var cmd *imapclient.ListCommand
+		st.issue = func() { cmd = cl.List("", "*", opts) }
+		st.collect = func() string {
+			l, err := cmd.Collect()
+			st.delivered = vL()
 			for _, d := range l {
-				delivered.add(vListData(d))
+				st.delivered.add(vListData(d))
 			}
 			return c03Err(err)
 		}
@@ -296,9 +307,11 @@ func c03Run(family, cfg, stream string, req, sup *val) caseLine {
 		opts := gStatusOpts(req.at(0))
 		sc.status = gStatus(sup)
 		mbox := sc.status.Mailbox
-		run = func() string {
-			d, err := cl.Status(mbox, opts).Wait()
-			delivered = vStatus(d)
+		var cmd *imapclient.StatusCommand
+		st.issue = func() { cmd = cl.Status(mbox, opts) }
+		st.collect = func() string {
+			d, err := cmd.Wait()
+			st.delivered = vStatus(d)
 			return c03Err(err)
 		}
 	case "select":
@@ -306,9 +319,11 @@ func c03Run(family, cfg, stream string, req, sup *val) caseLine {
 		sc.sel = gSelect(sup)
 		mbox := req.at(1).s
 		ro := req.at(0).boolean()
-		run = func() string {
-			d, err := cl.Select(mbox, &imap.SelectOptions{ReadOnly: ro}).Wait()
-			delivered = vSelect(d)
+		var cmd *imapclient.SelectCommand
+		st.issue = func() { cmd = cl.Select(mbox, &imap.SelectOptions{ReadOnly: ro}) }
+		st.collect = func() string {
+			d, err := cmd.Wait()
+			st.delivered = vSelect(d)
 			return c03Err(err)
 		}
 	case "search":
@@ -316,33 +331,40 @@ func c03Run(family, cfg, stream string, req, sup *val) caseLine {
 		sc.search = gSearch(sup)
 		opts := gSearchOpts(req.at(1))
 		uidMode := req.at(0).boolean()
-		run = func() string {
-			var cmd *imapclient.SearchCommand
+		var cmd *imapclient.SearchCommand
+		st.issue = func() {
 			if uidMode {
 				cmd = cl.UIDSearch(&imap.SearchCriteria{}, opts)
 			} else {
 				cmd = cl.Search(&imap.SearchCriteria{}, opts)
 			}
+		}
+		st.collect = func() string {
 			d, err := cmd.Wait()
-			delivered = vSearch(d)
+			st.delivered = vSearch(d)
 			return c03Err(err)
 		}
 	case "append":
 		sc.appendD = gAppend(sup)
-		run = func() string {
-			cmd := cl.Append("INBOX", 3, nil)
+		var cmd *imapclient.AppendCommand
+		st.issue = func() {
+			cmd = cl.Append("INBOX", 3, nil)
 			cmd.Write([]byte("abc"))
 			cmd.Close()
+		}
+		st.collect = func() string {
 			d, err := cmd.Wait()
-			delivered = vAppend(d)
+			st.delivered = vAppend(d)
 			return c03Err(err)
 		}
 	case "copy":
 		sc.copyD = gCopy(sup)
-		run = func() string {
-			d, err := cl.Copy(imap.SeqSetNum(1), "dest").Wait()
+		var cmd *imapclient.CopyCommand
+		st.issue = func() { cmd = cl.Copy(imap.SeqSetNum(1), "dest") }
+		st.collect = func() string {
+			d, err := cmd.Wait()
 			if d != nil {
-				delivered = vCopy(d)
+				st.delivered = vCopy(d)
 			}
 			return c03Err(err)
 		}
@@ -350,69 +372,135 @@ func c03Run(family, cfg, stream string, req, sup *val) caseLine {
 		// sup: ( copydata|_ ( expunge* ) )
 		sc.moveCopy = gCopy(sup.at(0))
 		sc.moveExp = gU32s(sup.at(1))
-		run = func() string {
-			d, err := cl.Move(imap.SeqSetNum(1), "dest").Wait()
+		var cmd *imapclient.MoveCommand
+		st.issue = func() { cmd = cl.Move(imap.SeqSetNum(1), "dest") }
+		st.collect = func() string {
+			d, err := cmd.Wait()
 			cp := vNil()
 			if d != nil {
 				cp = vL(vN(uint64(d.UIDValidity)), c03SetRanges(d.SourceUIDs), c03SetRanges(d.DestUIDs))
 			}
 			env.mu.Lock()
-			delivered = vL(cp, vU32s(env.exp))
+			st.delivered = vL(cp, vU32s(env.exp))
 			env.mu.Unlock()
 			return c03Err(err)
 		}
 	case "namespace":
 		sc.ns = gNamespace(sup)
-		run = func() string {
-			d, err := cl.Namespace().Wait()
-			delivered = vNamespace(d)
+		var cmd *imapclient.NamespaceCommand
+		st.issue = func() { cmd = cl.Namespace() }
+		st.collect = func() string {
+			d, err := cmd.Wait()
+			st.delivered = vNamespace(d)
 			return c03Err(err)
 		}
 	case "expunge":
 		// req: ( uidmode )
 		sc.expunge = gU32s(sup)
 		uidMode := req.at(0).boolean()
-		run = func() string {
-			var cmd *imapclient.ExpungeCommand
+		var cmd *imapclient.ExpungeCommand
+		st.issue = func() {
 			if uidMode {
 				cmd = cl.UIDExpunge(imap.UIDSetNum(1, 2, 3))
 			} else {
 				cmd = cl.Expunge()
 			}
+		}
+		st.collect = func() string {
 			l, err := cmd.Collect()
-			delivered = vU32s(l)
+			st.delivered = vU32s(l)
 			return c03Err(err)
 		}
 	case "caps":
 		// sup: the capability set the server is configured with (constant: as cmd/imapmemserver)
-		run = func() string {
-			caps, err := cl.Capability().Wait()
+		var cmd *imapclient.CapabilityCommand
+		st.issue = func() { cmd = cl.Capability() }
+		st.collect = func() string {
+			caps, err := cmd.Wait()
 			var l []string
 			for c := range caps {
 				l = append(l, string(c))
 			}
 			sort.Strings(l)
-			delivered = vStrs(l)
+			st.delivered = vStrs(l)
 			return c03Err(err)
 		}
 	default:
 		panic("c03: unknown family " + family)
 	}
+	return st
+}
 
-	env.sess.setScript(sc)
+// c03Run executes one case. family "pipe": req = ( ( Afamily req )* ), sup = ( sup* ): the commands are all
+// sent before the backend answers the first one (the first scripted backend call waits for the gate), so the
+// client routes every response with all commands pending; delivered = ( ( Aoutcome delivered )* ).
+func c03Run(family, cfg, stream string, req, sup *val) caseLine {
+	env := c03Get(cfg)
+	defer c03Put(env)
+
+	var steps []*c03Step
+	if family == "pipe" {
+		for i, r := range req.kids {
+			steps = append(steps, c03Prepare(env, r.at(0).s, r.at(1), sup.at(i)))
+		}
+	} else {
+		steps = []*c03Step{c03Prepare(env, family, req, sup)}
+	}
+	var scripts []*respScript
+	for _, st := range steps {
+		scripts = append(scripts, st.sc)
+	}
+	gate := make(chan struct{})
+	env.sess.pushScripts(scripts, gate)
 	off := env.mark()
-	outcome := c03Do(run)
-	env.sess.setScript(nil)
+	outcomes := make([]string, len(steps))
+	outcome := c03Do(func() string {
+		for _, st := range steps {
+			st.issue()
+		}
+		close(gate)
+		all := "ok"
+		for i, st := range steps {
+			outcomes[i] = st.collect()
+			if all == "ok" && outcomes[i] != "ok" {
+				all = outcomes[i]
+			}
+		}
+		return all
+	})
+	select {
+	case <-gate:
+	default:
+		close(gate)
+	}
+	env.sess.pushScripts(nil, nil)
 	if outcome != "ok" && outcome != "no" && outcome != "bad" {
 		env.dead = true
 	}
 	wire := env.since(off)
-	if delivered == nil {
-		delivered = vNil()
-	}
+	var delivered *val
 	qtab := vL()
-	if family == "fetch" {
-		qtab = c03QTable(sup)
+	if family == "pipe" {
+		delivered = vL()
+		for i, st := range steps {
+			d := st.delivered
+			if d == nil {
+				d = vNil()
+			}
+			o := outcomes[i]
+			if o == "" {
+				o = outcome
+			}
+			delivered.add(vL(vA(o), d))
+		}
+	} else {
+		delivered = steps[0].delivered
+		if delivered == nil {
+			delivered = vNil()
+		}
+		if family == "fetch" {
+			qtab = c03QTable(sup)
+		}
 	}
 	return caseLine{kind: family, fields: []string{cfg, stream, req.String(), sup.String(), outcome, delivered.String(), hx(wire), qtab.String()},
 		counts: []string{"family:" + family, "cfg:" + cfg, "stream:" + stream, "outcome:" + outcome}}
@@ -521,6 +609,8 @@ func c03BufferVal(b *imapclient.FetchMessageBuffer) *val {
 // ---- generators (all produce vals) ------------------------------------------------------------------
 
 type c03Gen struct {
+	seqBase uint32 // pipelined FETCH commands ask for disjoint message numbers
+	noUID   bool
 	r       *rng
 	look    bool   // strings may be RFC 2047 encoded-word look-alikes
 	ill     string // kind of ill-formedness to inject ("" = none)
@@ -715,7 +805,27 @@ func (g *c03Gen) time(allowZero bool) *val {
 			off = 7
 		}
 	}
-	return vTime(time.Unix(unix, int64(ns)).In(time.FixedZone("", int(off))))
+	// the location: unnamed fixed zone, UTC, or a named zone (an abbreviation the peer cannot resolve)
+	name := ""
+	switch r.intn(5) {
+	case 0, 1:
+		switch off {
+		case 0:
+			name = pick(r, []string{"UTC", "GMT", "WET"})
+		case 3600:
+			name = "CET"
+		case -18000:
+			name = pick(r, []string{"EST", "CDT"})
+		case 19800:
+			name = "IST"
+		default:
+			name = pick(r, []string{"PST", "JST", "XYZ", "LMT"})
+		}
+	}
+	if name == "UTC" {
+		return vTime(time.Unix(unix, int64(ns)).UTC())
+	}
+	return vTime(time.Unix(unix, int64(ns)).In(time.FixedZone(name, int(off))))
 }
 
 func (g *c03Gen) addr() *val {
@@ -1080,7 +1190,7 @@ func (g *c03Gen) fetchItems(ext *val, uidMode bool, uid uint32) *val {
 
 func (g *c03Gen) fetch() (req, sup *val) {
 	r := g.r
-	uidMode := r.chance(1, 4)
+	uidMode := r.chance(1, 4) && !g.noUID
 	ext := vNil()
 	switch r.intn(3) {
 	case 0:
@@ -1095,6 +1205,9 @@ func (g *c03Gen) fetch() (req, sup *val) {
 	sup = vL()
 	n := pick(r, []int{1, 1, 1, 2, 3})
 	seq := uint32(pick(r, []int{1, 1, 2, 7, 4294967290}))
+	if g.seqBase != 0 {
+		seq = g.seqBase
+	}
 	uid := uint32(pick(r, []int{1, 5, 100, 4294967290}))
 	for i := 0; i < n; i++ {
 		sup.add(vL(vN(uint64(seq)), g.fetchItems(ext, uidMode, uid)))
@@ -1325,6 +1438,90 @@ func (g *c03Gen) nsList() *val {
 	return v
 }
 
+// pipe: commands sent back to back before the backend answers the first; each must receive exactly the data
+// the backend wrote while answering IT.
+func (g *c03Gen) pipe(cfg string) (req, sup *val) {
+	r := g.r
+	req, sup = vL(), vL()
+	add := func(fam string, rq, sp *val) {
+		req.add(vL(vA(fam), rq))
+		sup.add(sp)
+	}
+	canon := func(m string) string {
+		if strings.EqualFold(m, "INBOX") {
+			return "INBOX"
+		}
+		return m
+	}
+	switch r.intn(5) {
+	case 0, 1: // LIST RETURN (STATUS) with a STATUS for one of the listed mailboxes queued behind it (sometimes one in front too)
+		so := g.statusOpts()
+		entries := vL()
+		seen := map[string]bool{}
+		var withStatus []string
+		n := 1 + r.intn(4)
+		for len(entries.kids) < n {
+			d := g.listData(so)
+			name := d.at(2).s
+			if seen[canon(name)] {
+				continue
+			}
+			seen[canon(name)] = true
+			if !d.at(5).isNil() {
+				withStatus = append(withStatus, name)
+			}
+			entries.add(d)
+		}
+		x := entries.at(r.intn(len(entries.kids))).at(2).s
+		if len(withStatus) > 0 && r.chance(4, 5) {
+			x = pick(r, withStatus)
+		}
+		if r.chance(1, 4) {
+			o0 := g.statusOpts()
+			add("status", vL(o0), g.statusData(pick(r, []string{x, "other-mailbox"}), o0))
+		}
+		add("list", vL(so), entries)
+		o2 := g.statusOpts()
+		add("status", vL(o2), g.statusData(x, o2))
+		if r.chance(1, 4) {
+			o3 := g.statusOpts()
+			add("status", vL(o3), g.statusData(entries.at(0).at(2).s, o3))
+		}
+	case 2: // FETCH + FETCH on disjoint message numbers
+		g.noUID = true
+		g.seqBase = 1
+		r1, s1 := g.fetch()
+		g.seqBase = 1000
+		r2, s2 := g.fetch()
+		add("fetch", r1, s1)
+		add("fetch", r2, s2)
+	case 3: // SEARCH then FETCH (or the other way round)
+		g.noUID = true
+		rs, ss := g.search(cfg)
+		rf, sf := g.fetch()
+		if r.chance(1, 2) {
+			add("search", rs, ss)
+			add("fetch", rf, sf)
+		} else {
+			add("fetch", rf, sf)
+			add("search", rs, ss)
+		}
+	default: // STATUS a + STATUS b
+		a, b := g.mailbox(), g.mailbox()
+		for canon(a) == canon(b) {
+			b = g.mailbox()
+		}
+		oa, ob := g.statusOpts(), g.statusOpts()
+		add("status", vL(oa), g.statusData(a, oa))
+		add("status", vL(ob), g.statusData(b, ob))
+		if r.chance(1, 3) {
+			oc := g.statusOpts()
+			add("status", vL(oc), g.statusData(a, oc))
+		}
+	}
+	return
+}
+
 var c03IllKinds = map[string][]string{
 	"fetch":     {"flag", "time", "msgid", "paramkey", "encoding", "ext-missing", "no-child", "kind-mismatch", "part", "partial", "section", "negative"},
 	"list":      {"attr", "delim", "status-missing", "negative"},
@@ -1341,11 +1538,13 @@ var c03IllKinds = map[string][]string{
 // c03Case generates one case from a sub-seed.
 func c03Case(r *rng) caseLine {
 	fam := pick(r, []string{"fetch", "fetch", "fetch", "fetch", "fetch", "fetch", "fetch", "list", "list", "status", "select", "search", "search",
-		"append", "copy", "move", "namespace", "expunge", "caps"})
+		"append", "copy", "move", "namespace", "expunge", "caps", "pipe", "pipe"})
 	cfg := pick(r, []string{"plain", "utf8", "rev2", "rev2"})
 	g := &c03Gen{r: r}
 	stream := "main"
 	switch {
+	case fam == "pipe":
+		// routing is the point here; the look-alike and ill-formed streams are covered by the single-command families
 	case r.chance(1, 8):
 		g.look = true
 		stream = "lookalike"
@@ -1387,6 +1586,8 @@ func c03Case(r *rng) caseLine {
 		req, sup = vL(vB(r.chance(1, 3))), g.expunges()
 	case "caps":
 		req, sup = vL(), vStrs([]string{"IMAP4rev1", "IMAP4rev2"})
+	case "pipe":
+		req, sup = g.pipe(cfg)
 	}
 	if stream == "illformed" && !g.injectd {
 		stream = "main"
@@ -1421,7 +1622,7 @@ func c03Corpus() []caseLine {
 }
 
 func genC03(e *emitter, tier string, seed uint64) {
-	n := 3000
+	n := 6000
 	switch tier {
 	case "thorough":
 		n = 150000
